@@ -220,6 +220,91 @@ def kwargs_of(ty):
     return kw
 
 
+class _IntSub(int):
+    """an int subclass (what enum.IntEnum members and many library 'size' objects are)"""
+
+
+class _Index:
+    """not a number class at all, but usable wherever an integer index is (`__index__`): what a slice accepts"""
+
+    def __init__(self, k):
+        self.k = k
+
+    def __index__(self):
+        return self.k
+
+    def __int__(self):
+        return self.k
+
+    def __bool__(self):
+        return self.k != 0  # like every number: zero is false
+
+
+# kinds of number a numeric PARAMETER of a cast (length / precision / scale) may be given as.
+# INDEX_KINDS: whole numbers in the sense of a slice (`__index__`): the unchanged tree honours them as the maximum length.
+# The other kinds are whole numbers only through int(): the unchanged tree's length slice raises TypeError on them
+# (allowed: "or raises"), its DECIMAL cast reads precision and scale through int() and honours every kind.
+INDEX_KINDS = ("np.int64", "np.int32", "np.int8", "np.int16", "np.uint8", "np.uint16", "np.uint32", "np.uint64", "np.intp", "bool", "intsub", "index")
+INT_ONLY_KINDS = ("float", "np.float64", "np.float32", "dec", "fraction", "np.bool_")
+# a 0-d integer array has `__index__` and `__int__` too, but it is a container (unhashable): honoured by the unchanged tree, yet a cast that
+# raises on it is within the statement ("or raises") — judged as "the value the whole number demands, or raises", not compared with the model
+LOOSE_KINDS = ("np.array0d",)
+NUM_KEYS = ("length", "precision", "scale")
+
+
+def num_as(kind, k):
+    """The whole number `k` as an object of another kind of number."""
+    import numpy
+
+    if kind == "int":
+        return int(k)
+    if kind in ("bool", "np.bool_"):
+        if k not in (0, 1):
+            raise InfraError("%r is not a bool" % (k,))
+        return bool(k) if kind == "bool" else numpy.bool_(k)
+    if kind == "intsub":
+        return _IntSub(k)
+    if kind == "index":
+        return _Index(k)
+    if kind == "np.array0d":
+        return numpy.array(k)
+    if kind.startswith("np."):
+        r = getattr(numpy, kind[3:])(k)
+        if int(r) != k:
+            raise InfraError("%r does not fit %s" % (k, kind))
+        return r
+    if kind == "float":
+        r = float(k)
+        if int(r) != k:
+            raise InfraError("%r is not a float" % (k,))
+        return r
+    if kind == "dec":
+        return D(k)
+    if kind == "fraction":
+        import fractions
+
+        return fractions.Fraction(k)
+    raise InfraError("bad number kind %r" % (kind,))
+
+
+def num_kind_fits(kind, k):
+    try:
+        num_as(kind, k)
+        return True
+    except (InfraError, OverflowError, ValueError, TypeError):
+        return False
+
+
+def numkind_modelled(c):
+    """Does the unchanged tree read every re-typed parameter of this case as the whole number it is?
+    (then the case means exactly what the same case with Python ints means: same expected value, same model answer)"""
+    nk = c.get("numkind") or {}
+    for key, kind in nk.items():
+        if kind in LOOSE_KINDS or (key == "length" and kind not in INDEX_KINDS and kind != "int"):
+            return False
+    return True
+
+
 def class_ok(name, r):
     from orso.types import ORSO_TO_PYTHON_MAP
 
@@ -267,6 +352,12 @@ def run_impl_plain(c):
     T = orso_type(c["ty"][0])
     v = py_val(c["val"])
     kw = kwargs_of(c["ty"])
+    for key, kind in (c.get("numkind") or {}).items():
+        # the same whole number, given as another kind of number (numpy integer scalar, bool, int subclass, ...)
+        if key not in NUM_KEYS:
+            raise InfraError("bad numkind key %r" % (key,))
+        if kw.get(key) is not None:
+            kw[key] = num_as(kind, kw[key])
     if c["ty"][0] == "ARRAY":
         kw = {}
         if c["ty"][1] is not None:
@@ -357,6 +448,8 @@ def oracle(c, out):
     if exp is not None:
         want = py_val(exp["v"]) if exp.get("wrapped") else py_val(exp)
         if out[0] != "ok":
+            if c.get("may_raise"):
+                return None  # "... or raises": a parameter the unchanged tree does not take as a whole number
             return "%s: cast of %s raised %s" % (c["clause"], c["val"]["t"], out[1])
         if not equal_value(out[1], want) or (type(out[1]) is not type(want)):
             return "%s: got another value" % c["clause"]
@@ -422,6 +515,8 @@ def in_domain(c):
         return False  # ARRAY is handled separately; other types only by the null clause
     if c["val"] is not None and c["val"].get("t") == "ext":
         return False  # classes next to the canonical ones: oracle (class / equality clauses) only
+    if c.get("numkind") and not numkind_modelled(c):
+        return False  # a length the slice does not accept (float, Decimal): oracle only ("the prefix, or raises")
     v = py_val(c["val"])
     if v is None:
         return True
@@ -610,6 +705,8 @@ def report_single(ctx, c, out, clause, m):
             c_min = shrink_prefix(c, clause)
     if c_min.get("ambient") and not ctx.replaying:
         c_min = shrink_ambient(c_min, clause)
+    if c_min.get("numkind") and not ctx.replaying:
+        c_min = shrink_numkind(c_min, clause)
     o2 = run_impl(c_min)
     ctx.fail(c_min, oracle(c_min, o2) or clause, impl=[o2[0], repr(o2[1])[:200]], model=m if c_min is c else None)
 
@@ -634,6 +731,29 @@ def shrink_ambient(c, clause):
         if fails(c2):
             amb = trial
             cur = c2
+    return cur
+
+
+def shrink_numkind(c, clause):
+    """Give every re-typed parameter back as a Python int when the same clause still fails (an input that fails with
+    plain ints loses the field altogether)."""
+    def fails(c2):
+        try:
+            return _norm(oracle(c2, run_impl(c2))) == _norm(clause)
+        except Exception:
+            return False
+    cur = dict(c)
+    nk = dict(cur["numkind"])
+    for key in list(nk):
+        trial = {k_: v_ for k_, v_ in nk.items() if k_ != key}
+        c2 = dict(cur)
+        if trial:
+            c2["numkind"] = trial
+        else:
+            c2.pop("numkind")
+            c2.pop("may_raise", None)
+        if fails(c2):
+            nk, cur = trial, c2
     return cur
 
 
@@ -1836,6 +1956,156 @@ def ambient_cases(ctx, n):
         yield c2
 
 
+def param_kind_cases(ctx, n):
+    """A numeric PARAMETER of a cast — the maximum length of VARCHAR[n] / BLOB[n], the precision and the scale of DECIMAL(p, s) —
+    given as another kind of number than a Python int: numpy integer scalars of every width, bool, an int subclass, an object with
+    `__index__`, a 0-d integer array; integral floats, Decimals, Fractions, numpy.bool_.  The statement quantifies over "all lengths
+    n>=1" and "all (precision, scale)": which class the whole number is an instance of is not part of it.  Where the unchanged tree
+    takes the kind as the whole number it is (every `__index__` kind as a length, every kind as precision / scale: read through
+    int()) the case means what the same case with Python ints means — same expected value, same model answer; where its slice
+    raises TypeError (float / Decimal / numpy.bool_ lengths) the clause is "the longest prefix within it, or raises"."""
+    rng = ctx.rng
+    kinds = ("int",) + INDEX_KINDS + INT_ONLY_KINDS + LOOSE_KINDS
+
+    def with_kind(c, **nk):
+        c["numkind"] = nk
+        if not numkind_modelled(c):
+            c["may_raise"] = True
+        for key, kind in nk.items():
+            ctx.hit("param-kind:%s=%s" % (key, kind))
+        return c
+
+    texts = ["hello world", "h\u00e9llo w\u00f6rld \U0001f600!", "\u65e5\u672c\u8a9e\u30c6\u30ad\u30b9\u30c8", "ab", "", "a" * 300, "\U0001f600" * 5, "x\x00y\x00z"]
+    for kind in kinds:
+        for s_ in texts:
+            for k in (0, 1, 2, 3, 5, len(s_), len(s_) + 1, 127, 255, 256):
+                if not num_kind_fits(kind, k):
+                    continue
+                want = s_ if not k else s_[:k]
+                b_ = s_.encode("utf-8")
+                wb = b_ if not k else b_[:k]
+                yield with_kind(case(["VARCHAR", k], s_, "text: longest prefix within the length", want), length=kind)
+                yield with_kind(case(["VARCHAR", k], b_, "text: longest prefix within the length (bytes)", want), length=kind)
+                yield with_kind(case(["BLOB", k], b_, "binary: longest prefix within the length", wb), length=kind)
+                yield with_kind(case(["BLOB", k], s_, "binary: longest prefix within the length (text)", wb), length=kind)
+        for v in (1234567, -5, True, 1.5):  # other values: no clause but class / totality, compared with the model
+            if num_kind_fits(kind, 2):
+                yield with_kind(case(["VARCHAR", 2], v), length=kind)
+                yield with_kind(case(["BLOB", 2], v), length=kind)
+    for _ in range(n):
+        kind = rng.choice(kinds)
+        s_ = gen_text(rng, rng.choice([3, 12, 40]))
+        k = rng.choice([1, 1, 2, 3, 5, 8, 13, 40, 0])
+        if not num_kind_fits(kind, k):
+            k = 1
+        lim = (lambda x: x) if not k else (lambda x, k=k: x[:k])
+        b_ = s_.encode("utf-8")
+        yield with_kind(case(["VARCHAR", k], s_, "text: longest prefix within the length", lim(s_)), length=kind)
+        yield with_kind(case(["VARCHAR", k], b_, "text: longest prefix within the length (bytes)", lim(s_)), length=kind)
+        yield with_kind(case(["BLOB", k], b_, "binary: longest prefix within the length", lim(b_)), length=kind)
+        yield with_kind(case(["BLOB", k], s_, "binary: longest prefix within the length (text)", lim(b_)), length=kind)
+    # DECIMAL(p, s): precision and scale each as another kind of number
+    g = [(1, 0), (1, 1), (5, 2), (5, 3), (10, 3), (9, 9), (20, 10), (28, 28), (29, 28), (38, 0), (38, 21), (38, 28), (38, 38), (2, 1), (3, 0)]
+    for (p_, s_) in g + rng.sample([(p, s) for p in range(1, 39) for s in range(0, p + 1)], ctx.scale(10, 60)):
+        ty = ["DECIMAL", p_, s_]
+        pk = [k_ for k_ in kinds if num_kind_fits(k_, p_)]
+        sk = [k_ for k_ in kinds if num_kind_fits(k_, s_)]
+        for j in range(ctx.scale(6, 16)):
+            a, b = rng.choice(pk), rng.choice(sk)
+            if j % 3 == 0:
+                a = "int"
+            elif j % 3 == 1:
+                b = "int"
+            if a == "int" and b == "int":
+                a = rng.choice(pk)
+            d = gen_decimal_fitting(rng, p_, s_)
+            if fits(d, p_, s_) and s_ <= 28:
+                yield with_kind(case(ty, d, "decimal: identity on a typed value", d), precision=a, scale=b)
+                txt = str(d)
+                yield with_kind(case(ty, rng.choice([txt, txt.encode(), pad(rng, txt), format(d, "f")]), "decimal: exact when it fits", d), precision=a, scale=b)
+            else:
+                yield with_kind(case(ty, d), precision=a, scale=b)
+                yield with_kind(case(ty, str(d)), precision=a, scale=b)
+            x = D(rng.randrange(10**rng.randint(1, 45))).scaleb(-rng.randint(0, 45), decimal.Context(prec=99))
+            yield with_kind(case(ty, str(x)), precision=a, scale=b)  # rounding / not fitting: the model's answer
+    for kind in kinds:  # the documented example, every kind on both parameters
+        if num_kind_fits(kind, 5) and num_kind_fits(kind, 3):
+            yield with_kind(case(["DECIMAL", 5, 3], "12.345", "decimal: exact when it fits", D("12.345")), precision=kind, scale=kind)
+            yield with_kind(case(["DECIMAL", 5, 3], "1.23456"), precision=kind, scale=kind)
+
+
+# values that compare equal (and hash equal) across classes, and their look-alikes: an ARRAY cast is element-wise, so element i of
+# the result is the cast of element i alone — never of an equal element seen earlier in the same array
+EQUAL_GROUPS = [
+    [1, 1.0, True, "1", "1.0", "true", "True"],
+    [0, 0.0, -0.0, False, "0", "0.0", "-0.0", "false", ""],
+    [2, 2.0, "2", "2.0"],
+    [-1, -1.0, "-1", "-1.0"],
+    [1000, 1000.0, 1e3, "1000", "1e3", "1000.0"],
+    [2**53, 2.0**53, 2**53 + 1, float(2**53 + 1)],
+    [10**16, 1e16, "1e16", "1e+16", "10000000000000000"],
+    [0.5, "0.5", 0.1, "0.1", 0.30000000000000004, 0.3],
+    [2**63 - 1, 2.0**63, -(2**63), -(2.0**63)],
+]
+
+
+def mixed_class_arrays(ctx, n):
+    """Arrays whose elements compare equal across classes (1 == 1.0 == True, 0 == 0.0 == -0.0 == False, 2**53 == 2.0**53), repeated
+    elements, and nulls between them — as JSON text, JSON bytes, padded JSON text, a list, a tuple — cast to the element types that
+    tell the classes apart.  No expected value is written down: the clause is `element-wise` itself, on the implementation's own
+    outputs (oracle `elementwise`: result[i] is the element type's cast of element i, cast on its own)."""
+    rng = ctx.rng
+    ets = ["VARCHAR", "BLOB", "DOUBLE", "INTEGER", "BOOLEAN", "DECIMAL"]
+
+    def forms(xs, native_only=False):
+        out = [("list", list(xs)), ("tuple", tuple(xs))]
+        if not native_only:
+            t = json.dumps(xs)
+            out += [("json-text", t), ("json-bytes", t.encode("utf-8")), ("json-text-padded", pad(rng, json.dumps(xs, separators=(rng.choice([",", " , "]), ":"))))]
+        return out
+
+    def emit(xs, et, native_only=False, pick=None):
+        fs = forms(xs, native_only)
+        if pick is not None:
+            fs = [fs[pick % len(fs)]]
+        for form, v in fs:
+            ctx.hit("mixed-class-array:" + form)
+            ctx.hit("mixed-class-array-of:" + et)
+            yield {"ty": ["ARRAY", [et]], "val": tag(v)}
+
+    # exhaustive small scope: every ordered pair and triple of the first two groups' numbers, every form, every element type
+    small = [1, 1.0, True, 0, 0.0, -0.0, False, None]
+    for a in small:
+        for b in small:
+            for et in ets:
+                for c in emit([a, b], et):
+                    yield c
+    for g in EQUAL_GROUPS:
+        for i in range(len(g)):
+            for j in range(len(g)):
+                if i != j:
+                    for et in ets:
+                        for c in emit([g[i], g[j], g[i]], et, pick=rng.randrange(5)):
+                            yield c
+    # natively only: Decimal('1') == 1, 'a' / b'a' never equal, NaN never equal to itself, -0.0, big ints
+    nan = float("nan")
+    for xs in ([D("1"), 1, 1.0, True], [1, D("1.0"), D("1.00")], [D("0"), 0, -0.0, D("-0")], ["a", b"a", "a"], [b"1", "1", 1, 1.0], [nan, nan, 1.0, nan], [nan, 0.0, -0.0],
+               [2**64, 2.0**64, 2**64], [1, None, 1.0, None, True], [True, 1, 1.0], [1.0, 1, True], [False, 0, 0.0, -0.0], [-0.0, 0.0, 0, False]):
+        for et in ets:
+            for c in emit(xs, et, native_only=True):
+                yield c
+    for _ in range(n):
+        et = rng.choice(ets)
+        k = rng.choice([2, 3, 3, 4, 6, 9])
+        groups = rng.sample(EQUAL_GROUPS, rng.choice([1, 1, 2]))
+        pool = [x for g in groups for x in g]
+        xs = [None if rng.random() < 0.12 else rng.choice(pool) for _ in range(k)]
+        if rng.random() < 0.4 and xs:
+            xs.append(xs[rng.randrange(len(xs))])  # a repeated element
+        for c in emit(xs, et, pick=rng.randrange(5)):
+            yield c
+
+
 def array_cases(ctx, n):
     import orjson
 
@@ -2157,6 +2427,8 @@ def run(ctx):
     batches(ctx, temporal_cases(ctx, ctx.scale(400, 5000)))
     batches(ctx, decimal_cases(ctx, grid(ctx), ctx.scale(6, 12)))
     batches(ctx, array_cases(ctx, ctx.scale(800, 10000)))
+    batches(ctx, mixed_class_arrays(ctx, ctx.scale(600, 8000)))
+    batches(ctx, param_kind_cases(ctx, ctx.scale(300, 4000)))
     batches(ctx, ambient_cases(ctx, ctx.scale(1200, 12000)))
     seq_batches(ctx, sequence_cases(ctx, ctx.scale(1200, 15000)))
     evaluate_threads(ctx, thread_pairs(ctx, ctx.scale(4, 150)), ctx.scale(4, 90), ctx.scale(4, 60))
@@ -2169,6 +2441,8 @@ def intensify(ctx):
     batches(ctx, ambient_cases(ctx, 6000))
     batches(ctx, text_cases(ctx, 3000))
     batches(ctx, array_cases(ctx, 3000))
+    batches(ctx, mixed_class_arrays(ctx, 2000))
+    batches(ctx, param_kind_cases(ctx, 1500))
     seq_batches(ctx, sequence_cases(ctx, 3000))
     evaluate_threads(ctx, thread_pairs(ctx, 60), 30, 30)
 
